@@ -440,8 +440,13 @@ void permissions(const std::string& path, perms permissions)
         throw std::system_error(GetLastError(), std::system_category(), "Unable to set permissions to " + path);
 
 #else
-    if (::chmod(path.c_str(), static_cast<mode_t>(permissions)) != 0)
-        throw std::system_error(errno, std::generic_category(), "Unable to change permissions for " + path);
+    if (::chmod(path.c_str(), static_cast<mode_t>(permissions)) != 0) {
+        // Not being allowed to is no trouble if there is nothing to change (a file of someone else
+        // which we may write to keeps its permissions without our doing).
+        const auto chmod_errno = errno;
+        if (get_permissions(path) != permissions)
+            throw std::system_error(chmod_errno, std::generic_category(), "Unable to change permissions for " + path);
+    }
 #endif
 }
 
